@@ -105,6 +105,22 @@ CLAIMS = {
    note="Only the code up to the first suspension of each handler is executed (every arm awaits the database); the SQL row filters by room behind the arms and the "
         "maintenance of allowed_room across several events (no revocation while connected) are outside the claim. tokio Mutex::lock is modelled uncontended.",
    design='DESIGN.md §3 C08'),
+ 'C19': dict(
+   level='model_checking',
+   text="Handshake and invitation-consumption kernels. (a) PeerManager::invite_accepted (an async fn over six database awaits) is executed from MIR to completion in one "
+        "poll - every awaited call completes with a chosen Ok/Err - on a symbolic token table holding the invitation under its derived token plus a symbolic other "
+        "entry (same or different token, either order); afterwards the real PeerManager::get_token_type is executed for the invitation's token and a symbolic key, and z3 "
+        "shows it can no longer answer with that invitation (single use). (b) LocalPeerService::initialise_connection is executed for each token type with a symbolic "
+        "identity answer, expected key, local key and invitation signature; Ed25519 verification is an uninterpreted predicate, key import an uninterpreted well-formedness "
+        "predicate. z3 shows that on every path with a trust effect (remote key bound to the connection, invitation consumed, peer reported connected, ready event sent) "
+        "the answer verifies against the challenge drawn by this very call under the key that is bound / reported, that key is the one expected for an allowed-peer token, "
+        "and an accepted invitation is signed by it; paths without proof have no effect at all. Every handshake path and sampled consumption paths are run natively: the real "
+        "async fn against a scripted remote side with real Ed25519 keys and signatures; the real PeerManager on two database instances (create_invite / accept_invite / "
+        "invite_accepted / get_token_type).",
+   note="Kernel only: the QUIC transport, the derivation of meeting tokens (X25519 + BLAKE3, idealised as uninterpreted functions), what PeerConnectionService does with the "
+        "messages, persistence of invitations across restarts, and the application check of accept_invite are outside. Found and fixed on the pinned tree: consumed invitations "
+        "stayed in the token table (ec69d66).",
+   design='DESIGN.md §3 C19'),
  'C10': dict(
    level='model_checking',
    text="Construction kernel: on one symbolic history (1-3 entries per list for fixed key patterns: enabled / disabled / re-enabled users, replaced rights, all-rows-"
@@ -149,7 +165,6 @@ NA = {
  'C16': "a schedule property of reader pool + actor + writer threads over SQLite; Kani/mirsym do not handle concurrency",
  'C17': "the index is SQLite FTS5; extract_json alone says nothing about matches",
  'C18': "events come from the SQL recomputation pass and tokio broadcast channels",
- 'C19': "async handshake over services; what remains after idealising Ed25519/X25519 is the idealisation itself",
 }
 PENDING = "driver not finished yet (DESIGN.md §6 build order); not claimed until it runs end to end"
 
